@@ -60,11 +60,16 @@ Midi(nr) == [kind |-> "midi", nr |-> nr]
 TrackOf(nm, ins, bars) == [name |-> nm, instr |-> ins, bars |-> bars]
 BarX == [key |-> <<"C">>, meter |-> <<4,4>>, entries |-> <<Ent(Q, OneNote(1, 64)), Ent(Q, <<>>), Ent(Q, OneNote(1, 64)), Ent(Q, OneNote(1, 64))>>]
 BarY == [key |-> <<"C">>, meter |-> <<4,4>>, entries |-> <<Ent([b |-> 3, d |-> 0, r |-> <<1,1>>], OneNote(1, 64)), Ent([b |-> 3, d |-> 0, r |-> <<1,1>>], <<>>)>>]
+BarR == [key |-> <<"C">>, meter |-> <<4,4>>, entries |-> <<Ent(Q, <<>>), Ent(Q, <<>>), Ent([b |-> 3, d |-> 0, r |-> <<1,1>>], <<>>)>>]
 Doubled ==
   {[bpm |-> 120, repeat |-> 0, tracks |-> ts] : ts \in {
      <<TrackOf(<<76, 101, 97, 100>>, Midi(73), <<BarX, BarY>>), TrackOf(<<66, 97, 115, 115, 32, 49>>, Midi(68), <<BarX, BarY>>)>>,
      <<TrackOf(<<65>>, NoInstr, <<BarX>>), TrackOf(<<66>>, Midi(40), <<BarY>>), TrackOf(<<67>>, Midi(41), <<BarX>>)>>,
-     <<TrackOf(<<65>>, NoInstr, <<BarY, BarY>>), TrackOf(<<66>>, NoInstr, <<BarY, BarY>>), TrackOf(<<67>>, NoInstr, <<BarY, BarY>>)>>}}
+     <<TrackOf(<<65>>, NoInstr, <<BarY, BarY>>), TrackOf(<<66>>, NoInstr, <<BarY, BarY>>), TrackOf(<<67>>, NoInstr, <<BarY, BarY>>)>>,
+     \* a first (or middle) track that holds no note at all: rests only
+     <<TrackOf(<<65>>, NoInstr, <<BarR>>), TrackOf(<<66>>, Midi(40), <<BarX>>)>>,
+     <<TrackOf(<<65>>, Midi(7), <<BarR, BarR>>), TrackOf(<<66>>, NoInstr, <<BarX, BarY>>), TrackOf(<<67>>, NoInstr, <<BarR, BarX>>)>>,
+     <<TrackOf(<<65>>, NoInstr, <<BarX>>), TrackOf(<<66>>, NoInstr, <<BarR>>), TrackOf(<<67>>, NoInstr, <<BarY>>)>>}}
 Systematic ==
   Doubled \cup
   {OneBarProg(k, <<4,4>>, <<Ent(Q, OneNote(1, 64)), Ent(Q, <<>>)>>, NoInstr, 0) : k \in AllKeys} \cup
@@ -90,7 +95,8 @@ PhraseB == <<Ent(Q, Pn(<<"D">>, 4)), Ent(Q, Pn(<<"F">>, 4))>>
 Repeats == {[bpm |-> 120, repeat |-> 0, tracks |-> <<[name |-> <<76, 101, 97, 100>>, instr |-> NoInstr, bars |-> bs]>>] :
               bs \in {<<BarOf(<<"C">>, <<4,4>>, PhraseA), BarOf(<<"C">>, <<4,4>>, PhraseB), BarOf(<<"C">>, <<4,4>>, PhraseA), BarOf(<<"C">>, <<4,4>>, PhraseB)>>,
                       <<BarOf(<<"C">>, <<4,4>>, PhraseA), BarOf(<<"C">>, <<4,4>>, PhraseA), BarOf(<<"C">>, <<4,4>>, PhraseA)>>,
-                      <<BarOf(<<"G">>, <<4,4>>, PhraseB), BarOf(<<"e">>, <<2,4>>, PhraseB), BarOf(<<"C">>, <<4,4>>, PhraseA)>>}}
+                      <<BarOf(<<"G">>, <<4,4>>, PhraseB), BarOf(<<"e">>, <<2,4>>, PhraseB), BarOf(<<"C">>, <<4,4>>, PhraseA)>>,
+                      <<BarOf(<<"C">>, <<4,4>>, PhraseA), BarOf(<<"E">>, <<3,4>>, PhraseB), BarOf(<<"C">>, <<4,4>>, PhraseA), BarOf(<<"E">>, <<3,4>>, PhraseB)>>}}
 Systematic19 ==
   Repeats \cup
   {OneBarProg(<<"C">>, <<4,4>>, <<Ent(Q, Pn(n, o))>>, NoInstr, 0) : n \in N35, o \in 0..8} \cup
